@@ -278,7 +278,7 @@ def classify_ok_site(r, body, bb, st):
 
 
 @rule("C01.OK-DISCIPLINE", ["C01", "C06", "C20"], """every construction of ActorInputMessage::Ok is one of: I1 announcement under a true
-      `executed`; I2 reply `actual: false` for a kind the actor does not execute; I3 aggregate forward under an empty pending set""", "K4", floor=7)
+      `executed`; I2 reply `actual: false` for a kind the actor does not execute; I3 aggregate forward under an empty pending set""", "K4", floor=3)
 def ok_discipline(ctx):
     r = ctx.r
     n = 0
